@@ -509,8 +509,10 @@ func genCfg(t *rapid.T) cfgCase {
 	n := rapid.IntRange(0, 4).Draw(t, "devices")
 	for i := 0; i < n; i++ {
 		c.Cfg.Devices = append(c.Cfg.Devices, hook.DeviceCfg{Name: rapid.SampledFrom([]string{"", "A", "  spaced   name ", "ünï"}).Draw(t, "name"), Serial: gen.U32(t, "serial"), HasAddr: rapid.Bool().Draw(t, "ha"),
-			IP: gen.IPv4(t, "ip"), Port: uint16(rapid.IntRange(0, 65535).Draw(t, "port")), Protocol: rapid.SampledFrom([]string{"", "udp", "tcp", "any", "TCP", "\x00"}).Draw(t, "proto"), ViaNew: rapid.Bool().Draw(t, "vianew")})
+			IP: gen.IPv4(t, "ip"), Port: uint16(rapid.IntRange(0, 65535).Draw(t, "port")), Protocol: rapid.SampledFrom([]string{"", "udp", "tcp", "any", "TCP", "\x00"}).Draw(t, "proto"), ViaNew: rapid.Bool().Draw(t, "vianew"), TZ: gen.DeviceTZ(t, "tz"),
+			RawIP: rapid.SampledFrom([]string{"", "", "", "::1", "fe80::1", "2001:db8::68", "::ffff:10.0.0.1", "::ffff:0.0.0.0", "::", "fe80::1%eth0", "::192.168.1.100"}).Draw(t, "rawip")})
 	}
+	c.Cfg.Debug = gen.Debug(t, "debug")
 	return c
 }
 
@@ -596,6 +598,7 @@ func props() []rp.Prop {
 		rp.P[replyCase]{Name: "listener", Checks: n / 6, Gen: genListen, Check: checkListen},
 		rp.P[api.Case]{Name: "args", Checks: n, Gen: genArgs, Check: checkArgs},
 		rp.P[cfgCase]{Name: "config", Checks: n / 10, Gen: genCfg, Check: checkCfg},
+		rp.P[faultCase]{Name: "network-faults", Checks: ev.Pick(600, 40000) / ev.Shards(), Gen: genFault, Check: checkFault},
 		rp.P[slowCase]{Name: "slow-consumer", Sweep: func(yield func(slowCase) bool) {
 			for _, h := range []int{0, 40, 3200} {
 				if (h < 1000 || ev.Shard() == 0) && !yield(slowCase{h}) {
